@@ -143,6 +143,12 @@ class Check:
                 self.add_fail(ev["key"], ev.get("what", ""), case)
                 if ev.get("n", 1) > 1:
                     self.failures[ev["key"]]["n"] += ev["n"] - 1
+            elif t == "failmag":
+                f = self.failures.setdefault(ev["key"], dict(n=0, what="", first={}))
+                w = ev.get("worst")
+                w = float(w) if isinstance(w, str) else w
+                if w is not None and not (w <= f.get("worst_mag", -1.0)):
+                    f["worst_mag"] = w
             elif t == "cell":
                 self.add_cell(ev["cell"], ev.get("n", 1), ev.get("worst", 0.0), ev.get("wit"))
             elif t == "count":
@@ -233,8 +239,8 @@ class Check:
         for key, f in sorted(self.failures.items()):
             if key in opened:
                 known_seen.append(key)
-                print("KNOWN-FINDING: property=%s %s %s (observed %d times; e.g. %s)" % (
-                    self.pid, key, opened[key].get("what", ""), f["n"], f["what"][:160]))
+                print("KNOWN-FINDING: property=%s %s %s (observed %d times%s; e.g. %s)" % (
+                    self.pid, key, opened[key].get("what", ""), f["n"], (", largest magnitude %.3g" % f["worst_mag"]) if "worst_mag" in f else "", f["what"][:160]))
             else:
                 violations.append(key)
         replay_paths = {}
@@ -274,7 +280,7 @@ class Check:
             inconclusive=int(self.inconclusive),
             cells=self._cells_for_evidence(),
             counts=self.counts,
-            known_findings_observed={k: self.failures[k]["n"] for k in known_seen},
+            known_findings_observed={k: (dict(n=self.failures[k]["n"], worst_magnitude=self.failures[k]["worst_mag"]) if "worst_mag" in self.failures[k] else self.failures[k]["n"]) for k in known_seen},
             violations_observed={k: dict(n=self.failures[k]["n"], what=self.failures[k]["what"][:300],
                                          replay=replay_paths[k]) for k in violations},
             harness_errors=inconclusive_reasons,
